@@ -163,7 +163,7 @@ def adversarial_cases(rng, n):
         names = 3
         x = rng.randrange(names)
         X = rng.randrange(names)
-        fam = rng.randrange(9)
+        fam = rng.randrange(12)
         if fam == 0:
             # imp_refl(A[X]) ; Gen x ; Subst X := plug mentioning x
             A = rng.choice([('SVar', X), ('Imp', ('SVar', X), ('Sym', 0)), ('App', ('SVar', X), ('SVar', X)),
@@ -235,6 +235,47 @@ def adversarial_cases(rng, n):
             other = G.gen_pat(rng, 1, names, meta=False)
             proof = rng.choice([[], G.prog_imp_refl(other) + [G.PUBLISH], G.prog_imp_refl(other)])
             out.append((f'V - {G.hexs(G.build(c) + [G.PUBLISH])} {G.hexs(proof)}', 'adv:unproved-or-mismatching-claim'))
+        elif fam == 9:
+            # one metavariable id used with two different constraint sets in one proved term (constraints live on the occurrence)
+            mc = ('MVar', 0, (x,), (), (), (), ())
+            gf = ('Imp', ('Ex', x, mc), mc)
+            inst_to = rng.choice([('EVar', x), ('App', ('EVar', x), ('Sym', 0)), ('Sym', 1), ('EVar', (x + 1) % names)])
+            if rng.random() < 0.5:
+                prog = (G.build(inst_to) + G.inst_axiom(G.PROP1, [gf, ('Imp', G.phi(0), G.phi(0))])
+                        + G.prog_imp_refl(mc) + [G.GEN, x, G.MP, G.INST, 1, 0])
+            else:
+                prog = G.build(inst_to) + G.inst_axiom(G.PROP1, [G.phi(0), mc]) + [G.INST, 1, 0]
+            out.append((f'E P {G.hexs(prog)}', 'adv:same-id-two-constraint-sets'))
+        elif fam == 10:
+            # instantiate only a metavariable that sits in the PLUG of a pending substitution (sequential vs simultaneous)
+            head = rng.choice(['ESub', 'SSub'])
+            mvp = ('MVar', 1, (x,) if rng.random() < 0.4 else (), (), (), (), ())
+            E = (head, G.phi(0), x if head == 'ESub' else X, mvp)
+            c = rng.choice([('Sym', 0), ('EVar', x), ('SVar', X)])
+            base = rng.choice([('EVar', x), ('SVar', X), ('App', ('EVar', x), ('EVar', x))])
+            steps = rng.choice([[(1, c)], [(1, c), (0, base)], [(0, base), (1, c)], [(0, base)]])
+            prog = []
+            for (_, plug) in reversed(steps):
+                prog += G.build(plug)
+            prog += G.prog_imp_refl(E)
+            for (i, _) in steps:
+                prog += [G.INST, 1, i]
+            out.append((f'E P {G.hexs(prog)}', 'adv:inst-plug-of-pending-subst'))
+        elif fam == 11:
+            # several distinct claims discharged in a permuted order (claims are a stack)
+            cs = []
+            for _ in range(rng.randrange(2, 4)):
+                a = G.gen_pat(rng, 1, names, meta=False)
+                cs.append((('Imp', a, a), G.prog_imp_refl(a)))
+            claimb = []
+            for c_, _ in cs:
+                claimb += G.build(c_) + [G.PUBLISH]
+            order = list(range(len(cs)))
+            rng.shuffle(order)
+            proofb = []
+            for i in order:
+                proofb += cs[i][1] + [G.PUBLISH]
+            out.append((f'V - {G.hexs(claimb)} {G.hexs(proofb)}', 'adv:claims-discharged-in-permuted-order'))
         else:
             # substitution into a constrained / pending-substitution schema, then instantiate
             mv = ('MVar', 0, (), (X,) if rng.random() < 0.5 else (), (), (), ())
